@@ -14,6 +14,7 @@
 From Coq Require Import Strings.String.
 From Coq Require Import ZArith List Bool Lia Strings.Byte.
 From YV Require Import Val.Model Tree.Schema Tree.Merge Tree.PathExpr Tree.PathExprProofs Tree.Params Tree.Project Tree.ParamsProofs Tree.Reading Tree.ReadingProofs.
+From YV Require Import Tree.Editor Tree.ExportProofs Tree.ParamsExport.
 Import ListNotations.
 Open Scope Z_scope.
 
@@ -230,3 +231,58 @@ Example C07_example :
   read_query ex_kids ex_data [(B "depth", B "zero")] = PErr PBadRequest.
 Proof. repeat split; vm_compute; reflexivity. Qed.
 Print Assumptions C07_example.
+
+(** ** the bridge to the shared export model (C07Check.classify's [bridge], as a theorem)
+
+    The reader without constraints (no constraint object: the empty query) and the shared Editor
+    export into an empty target return the same content, the full read - for every schema whose
+    list rows are containers, without choices, and every well-formed tree (ExportProofs.wfd:
+    shaped like the schema, list keys unique); with upsert or insert.
+    Named _partial because the statement without key uniqueness is false (below). *)
+Theorem C07_unconstrained_read_is_export_partial : forall kids data st,
+  st <> Update ->
+  forallb wf_schema kids = true -> cfree (SCont root_meta kids) = true ->
+  wfd (SCont root_meta kids) (DCont data) = true ->
+  read_content None kids data = POk (full_read kids data) /\
+  edit_content false kids data (empty_content kids) st = Ok (full_read kids data).
+Proof. exact unconstrained_read_is_export. Qed.
+Print Assumptions C07_unconstrained_read_is_export_partial.
+
+(** ... in the words of the check: both return the same content (domain as C07Check's [dom],
+    plus unique keys) *)
+Theorem C07_unconstrained_read_same_result : forall kids data,
+  forallb wf_schema kids = true -> forallb choice_free kids = true ->
+  wfd (SCont root_meta kids) (DCont data) = true ->
+  same_result (read_content None kids data) (edit_content false kids data (empty_content kids) Upsert).
+Proof. exact unconstrained_read_same_result. Qed.
+Print Assumptions C07_unconstrained_read_same_result.
+
+(** the export tree of C04 ([Export.visit]) and the full read of C07 ([Project.fill]) are one tree *)
+Theorem C07_export_is_fill : forall s, cfree s = true -> forall d new, shaped s d = true ->
+  Export.visit new s d = fill new s d.
+Proof. exact visit_is_fill. Qed.
+Print Assumptions C07_export_is_fill.
+
+(** with shaped data only (no key uniqueness) the statement is false: two entries with one key
+    are both delivered by the reader (it appends) and merged by the editor (it looks the key up) *)
+Definition C07_unconstrained_read_is_export_full_statement : Prop :=
+  forall kids data,
+    forallb wf_schema kids = true -> forallb choice_free kids = true ->
+    shaped (SCont root_meta kids) (DCont data) = true ->
+    same_result (read_content None kids data) (edit_content false kids data (empty_content kids) Upsert).
+Theorem C07_unconstrained_read_is_export_full_refuted : ~ C07_unconstrained_read_is_export_full_statement.
+Proof. exact unconstrained_read_is_export_full_refuted. Qed.
+Print Assumptions C07_unconstrained_read_is_export_full_refuted.
+
+(** the hypotheses of the bridge are satisfiable (a keyed list with two entries, a container with
+    defaults below it) *)
+Example C07_bridge_example :
+  forallb wf_schema ok_kids = true /\ forallb choice_free ok_kids = true /\
+  cfree (SCont root_meta ok_kids) = true /\
+  wfd (SCont root_meta ok_kids) (DCont ok_data) = true /\
+  read_content None ok_kids ok_data =
+    POk [Some (DList [DCont [Some (DLeaf (LV (VStr [x31]))); Some (DLeaf (LV (VStr [x61])))];
+                      DCont [Some (DLeaf (LV (VStr [x32]))); None]]);
+         Some (DCont [Some (DLeaf (LV (VStr [x64]))); Some (DCont [Some (DLeaf (LV (VStr [x65])))])])].
+Proof. exact bridge_hypotheses_satisfiable. Qed.
+Print Assumptions C07_bridge_example.
